@@ -623,6 +623,21 @@ example : HistOKg (Dag.init 1 1 0)
   ⟨gH, ⟨gH, ⟨by decide, rfl, by intro e1 h1 e2 h2 hne; simp at h1 h2; subst h1 h2; exact absurd rfl hne⟩⟩,
    gC, gM, gW, trivial, trivial, gC, trivial, trivial, trivial, trivial, trivial, trivial⟩
 
+/-- **inserting at the beginning of wires is always a well-formed call** (the time-reversed solver's pattern:
+    `insert_at(gate, [first out-edge of e<i>_in, first out-edge of p<j>_in])`): existing edges that leave input nodes, one per
+    quantum register of the operation and keyed by it, satisfy `InsertOK` — nothing reaches an input node, so no path condition
+    is left to check -/
+theorem insert_at_input_edges_is_well_formed {c : Dag} (h : DagInv c) {op : Op} {es : List Edge}
+    (hmem : ∀ e ∈ es, e ∈ c.edges) (hkeys : es.map (·.key) = op.qregs) (hsrc : ∀ e ∈ es, ∃ r, e.src = NodeId.inp r) :
+    InsertOK c op es := by
+  obtain ⟨P, g⟩ := h; exact insertOK_of_input_edges g hmem hkeys hsrc
+
+/-- … and so is inserting at the end of wires (edges entering output nodes: appending a gate) -/
+theorem insert_at_output_edges_is_well_formed {c : Dag} (h : DagInv c) {op : Op} {es : List Edge}
+    (hmem : ∀ e ∈ es, e ∈ c.edges) (hkeys : es.map (·.key) = op.qregs) (hdst : ∀ e ∈ es, ∃ r, e.dst = NodeId.out r) :
+    InsertOK c op es := by
+  obtain ⟨P, g⟩ := h; exact insertOK_of_output_edges g hmem hkeys hdst
+
 /-! ## 10. `find_incompatible_edges`: exactly which edges are reported -/
 
 /-- **Characterisation.**  With `anc` / `desc` meeting the recorded networkx specification, `find_incompatible_edges(first)`
